@@ -314,6 +314,21 @@ def r3_evaluation_dispatch(ctx: Ctx) -> None:
                     n = c0
                 elif c0 is not None and isinstance(test.ops[0], ast.Lt):
                     n = c0 - 1
+            if n is None and isinstance(test, ast.Compare) and len(test.ops) == 1 and _cn(ev.node, test.left) == f"abs({v})":
+                # a magnitude threshold: the arm takes values up to `top`; it is the n-bit arm only if top is 2^n - 1
+                c0 = const_int(test.comparators[0])
+                top = c0 if isinstance(test.ops[0], ast.LtE) else (c0 - 1 if isinstance(test.ops[0], ast.Lt) and c0 is not None else None)
+                if top is not None:
+                    arm_val = unparse(body[0].value) if len(body) == 1 and isinstance(body[0], ast.Assign) else ""
+                    mm = __import__("re").fullmatch(r"~" + __import__("re").escape(v) + r" & (\d+)|(\d+) & ~" + __import__("re").escape(v), arm_val)
+                    bits = int(mm.group(1) or mm.group(2)).bit_length() if mm else None
+                    if (top + 1) & top == 0 and top > 0:
+                        n = top.bit_length()
+                    elif bits is not None:
+                        ctx.fail(f"eval_expression[~ within {bits} bits]", f"the {bits}-bit arm is taken for magnitudes up to {hex(top)} only: {hex((1 << bits) - 1)} itself, which fits {bits} bits, "
+                                 "is complemented in the next wider width (or rejected)")
+                        widths.append(bits)
+                        continue
             val = unparse(body[0].value) if len(body) == 1 and isinstance(body[0], ast.Assign) else ""
             ctx.count("complement_arms")
             good = n is not None and (val == f"ctypes.c_uint{n}(~{v}).value" or val in (f"~{v} & {(1 << n) - 1}", f"{(1 << n) - 1} & ~{v}", f"~{v} % {1 << n}"))
